@@ -73,6 +73,7 @@ PROPS = {
                   ["request-answered-5xx", "request-answered-2xx"], stall=True, design_ref="DESIGN.md §4 C05"),
 }
 PROPS["C05"]["known_probes"] = ["findings/C05-influx-stream-parser-spins.json"]
+PROPS_C15_PROBE = "findings/C15-in-process-log-query-over-3000-entries-splits-streams.json"
 PROPS["C05"]["stall_timeout"] = 60
 PROPS["C05"]["crash_is_violation"] = True
 
@@ -112,6 +113,7 @@ PROPS["C15"] = read("C15", "TestRead", "deterministic simulation (fault-free con
                     "row-level comparison only for plain selector queries (no stage changes the rows); other endpoints are checked for being one well-formed JSON document", READ_RULE,
                     # every endpoint must reach its success path: a fake that mistypes a column sends it down the error path silently
                     ["status-2xx", "endpoint-query_range", "endpoint-query", "query_range-2xx", "query-2xx", "labels-2xx", "label_values-2xx", "series-2xx", "prom_range-2xx", "prom_instant-2xx", "prom_labels-2xx", "prom_series-2xx", "trace-2xx", "trace_json-2xx", "search-2xx", "tags-2xx", "tags_v2-2xx", "tag_values-2xx", "tag_values_v2-2xx", "prof_types-2xx", "prof_label_names-2xx", "prof_label_values-2xx", "prof_select_series-2xx", "prof_merge-2xx", "prof_series-2xx", "prof_merge_profiles-2xx", "render_diff-2xx", "tail-2xx"], design_ref="DESIGN.md §5 C15")
+PROPS["C15"]["known_probes"] = [PROPS_C15_PROBE]
 PROPS.update({
     "C18": {
         "pkg": "ctrlsim", "test": "TestC18", "instrument": False, "level": "fault_enumeration",
